@@ -61,20 +61,24 @@ def _import_logwriter():
     mods["twisted.application.service"].Service = Service
     mods["twisted.internet.threads"].deferToThreadPool = deferToThreadPool
     sys.modules.update(mods)
+    import queue
+
+    real_queue = queue.SimpleQueue
+    # queues the module creates while it is imported (module or class level) are cooperative too
+    queue.SimpleQueue = thr.CoopQueue
     try:
         sys.modules.pop("eliot.logwriter", None)
         import eliot.logwriter as lw
     finally:
+        queue.SimpleQueue = real_queue
         for n in names:
             if saved[n] is None:
                 sys.modules.pop(n, None)
             else:
                 sys.modules[n] = saved[n]
+    lw.threading = _ThreadingShim()
+    lw.SimpleQueue = thr.CoopQueue
     return lw
-
-
-lw = _import_logwriter()
-LW_FILE = lw.__file__
 
 
 class _ThreadingShim(object):
@@ -84,8 +88,13 @@ class _ThreadingShim(object):
         return getattr(_threading, name)
 
 
-lw.threading = _ThreadingShim()
-lw.SimpleQueue = thr.CoopQueue
+LW_FILE = _import_logwriter().__file__
+
+
+def fresh_logwriter():
+    """A freshly executed eliot.logwriter for every execution: no module- or class-level state of
+    the writer survives from one explored schedule to the next."""
+    return _import_logwriter()
 
 ID = "C19"
 CASE_TIMEOUT = 3600  # one case is a whole schedule exploration
@@ -96,7 +105,8 @@ RULE = (
     "optionally a second start/stop cycle with producer P3), producer P1 (1-2 messages, joined before "
     "stop), producer P2 (0-2 messages racing with stop), each offering directly to the writer or via "
     "log_message through the global destinations, the reader thread, the pool thread running the join; "
-    "wrapped destination raising on a chosen subset of its calls (<= 2); every schedule with <= p "
+    "wrapped destination raising on a chosen subset of its calls (<= 2); plus two writers with their own "
+    "destinations running at the same time (one stopped, optionally restarted, while the other still works); every schedule with <= p "
     "preemptions, at two granularities: (sync) scheduling points at queue put/get, thread start/join and "
     "blocking waits only, (line) additionally every source line of eliot/logwriter.py; "
     "states = schedule-tree nodes, transitions = scheduling decisions; non-trivial = every harness"
@@ -125,14 +135,18 @@ HARNESSES = [
     # after the first cycle stopService is called once more (it is rejected: the writer is not
     # registered any more); the second cycle must be unaffected
     {"p1": 1, "p2": 0, "via": "direct", "mask": [], "cycles": 2, "double_stop": True},
+    # two independent writers running at the same time, each with its own destination; B is stopped
+    # while A still has work; the second variant restarts B afterwards
+    {"writers": 2, "a": 2, "b": 1, "restart_b": False},
+    {"writers": 2, "a": 1, "b": 1, "restart_b": True},
 ]
 NSHARDS = 6
 
 
 def BOUNDS(tier):
     if tier == "quick":
-        return {"sync_granularity_preemptions": 2, "line_granularity_preemptions": 1, "harnesses": len(HARNESSES)}
-    return {"sync_granularity_preemptions": 3, "line_granularity_preemptions": 2, "harnesses": len(HARNESSES)}
+        return {"sync_granularity_preemptions": 2, "line_granularity_preemptions": 1, "two_writers_preemptions": 0, "harnesses": len(HARNESSES)}
+    return {"sync_granularity_preemptions": 3, "line_granularity_preemptions": 2, "two_writers_preemptions": 1, "harnesses": len(HARNESSES)}
 
 
 def units(tier):
@@ -140,6 +154,10 @@ def units(tier):
     out = []
     for i in range(len(HARNESSES)):
         for k in range(NSHARDS):
+            if HARNESSES[i].get("writers") == 2:
+                # two writers: five threads; synchronisation-point granularity only
+                out.append([i, "sync", b["two_writers_preemptions"], k])
+                continue
             out.append([i, "sync", b["sync_granularity_preemptions"], k])
             out.append([i, "line", b["line_granularity_preemptions"], k])
     return out
@@ -153,12 +171,120 @@ class DestBoom(Exception):
     pass
 
 
-def run_harness(hi, bound, shard, lines=True):
-    h = HARNESSES[hi]
+def run_two_writers(h, bound, shard, lines):
+    """Each writer passes exactly what was offered to *it*, in order, to its own destination on its own thread."""
     funcs = {"startService", "stopService", "__call__", "_reader"}
 
     def setup(s):
         world.fresh()
+        lw = fresh_logwriter()
+        eliot.add_destinations(lambda m: None)
+        got = {"A": [], "B": []}
+        offered = {"A": [], "B": []}
+        stops = []
+        callers = set()
+
+        def dest(name):
+            def d(msg):
+                got[name].append((msg["id"], s.me().tid))
+
+            return d
+
+        wa = lw.ThreadedWriter(dest("A"), Reactor())
+        wb = lw.ThreadedWriter(dest("B"), Reactor())
+
+        def producer(w, name, ids):
+            def f():
+                callers.add(s.me().tid)
+                for mid in ids:
+                    w({"id": mid})
+                    offered[name].append(mid)
+
+            return f
+
+        def stop(w, name):
+            hd = w.stopService()
+            s.block_until(lambda: hd.done, ("wait-stop", name))
+            stops.append((name, list(offered[name]), [m for m, _ in got[name]]))
+
+        def main():
+            callers.add(s.me().tid)
+            wa.startService()
+            wb.startService()
+            pa = thr.CoopThread(target=producer(wa, "A", ["a%d" % i for i in range(h["a"])]), name="PA")
+            pa.start()
+            producer(wb, "B", ["b%d" % i for i in range(h["b"])])()
+            stop(wb, "B")
+            if h["restart_b"]:
+                wb.startService()
+                wb({"id": "b-again"})
+                offered["B"].append("b-again")
+            pa.join()
+            stop(wa, "A")
+            if h["restart_b"]:
+                stop(wb, "B")
+
+        def observe(s):
+            return {"got": {k: list(v) for k, v in got.items()}, "offered": {k: list(v) for k, v in offered.items()},
+                    "stops": list(stops), "callers": sorted(callers),
+                    "alive": [w._thread.is_alive() if w._thread is not None else None for w in (wa, wb)]}
+
+        return [("M", main)], observe
+
+    viol = []
+    execs = states = transitions = 0
+    by_pre = {}
+    seen = set()
+    for x in thr.explore(setup, bound, trace_files=[LW_FILE] if lines else [], trace_funcs=funcs, shard=shard):
+        execs += 1
+        transitions += len(x.choices)
+        states += 1 + len(x.choices)
+        by_pre[x.preemptions] = by_pre.get(x.preemptions, 0) + 1
+        o = x.obs
+        seen.add(repr((o["got"], o["offered"])))
+        info = {"schedule": [c[3] for c in x.choices], "preemptions": x.preemptions, "harness": h}
+        if x.sched.deadlock:
+            viol.append(("two-writers:deadlock", dict(info, threads=x.sched.deadlock)))
+            continue
+        if x.sched.horizon_hit:
+            viol.append(("two-writers:livelock-horizon", info))
+            continue
+        for t in x.sched.threads:
+            if t.exc is not None:
+                viol.append(("two-writers:thread-raised:" + type(t.exc).__name__, dict(info, thread=t.name, exc=repr(t.exc))))
+        for name in ("A", "B"):
+            ids = [m for m, _ in o["got"][name]]
+            if ids != o["offered"][name]:
+                viol.append(("two-writers:destination-did-not-get-exactly-what-its-writer-was-offered",
+                             dict(info, writer=name, offered=o["offered"][name], written=ids, other=[m for m, _ in o["got"]["B" if name == "A" else "A"]])))
+            tids = set(t for _, t in o["got"][name])
+            if tids & set(o["callers"]):
+                viol.append(("two-writers:written-on-caller-thread", dict(info, writer=name)))
+            if len(tids) > (2 if (name == "B" and h["restart_b"]) else 1):
+                viol.append(("two-writers:more-than-one-writer-thread", dict(info, writer=name, threads=len(tids))))
+        for name, off, wr in o["stops"]:
+            if [m for m in off if m not in wr]:
+                viol.append(("two-writers:stop-completed-before-drain", dict(info, writer=name, offered=off, written=wr)))
+        if any(o["alive"]):
+            viol.append(("two-writers:reader-still-alive-after-stop", info))
+        if len(viol) >= 4:
+            break
+    best = {}
+    for sig, d in viol:
+        if sig not in best or d.get("preemptions", 9) < best[sig].get("preemptions", 9):
+            best[sig] = d
+    return execs, states, transitions, by_pre, seen, sorted(best.items())
+
+
+def run_harness(hi, bound, shard, lines=True):
+    h = HARNESSES[hi]
+    if h.get("writers") == 2:
+        return run_two_writers(h, bound, shard, lines)
+    funcs = {"startService", "stopService", "__call__", "_reader"}
+
+    def setup(s):
+        world.fresh()
+        lw = fresh_logwriter()
         eliot.add_destinations(lambda m: None)  # leave buffering mode
         written = []  # (msg id, thread ident)
         calls = [0]
